@@ -513,17 +513,15 @@ theorem mem_namedEntries_lastWins (B1 B2 : List RawCell) (c : RawCell) (n : Stri
     rcases List.mem_map.mp hp with ⟨c', hc', rfl⟩
     exact hlast c' hc' hk
 
-theorem icEntries_merge (B : List RawCell) : icEntries (parse .merge B) = entriesOfKey (B.map cell) none := by
+theorem icEntries_merge (B : List RawCell) :
+    icEntries (parse .merge B) =
+      if none ∈ (B.map cell).map (·.1) then some (entriesOfKey (B.map cell) none) else none := by
   unfold icEntries parse mkDelayFile
   simp only
   rw [dictGet_start_merge]
-  split
-  · rfl
-  · rename_i h
-    rw [entriesOfKey_nil_of_not_mem _ _ h]; rfl
 
 theorem icEntries_lastWins (B : List RawCell) :
-    icEntries (parse .lastWins B) = (((B.map cell).reverse.find? (·.1 == none)).map (·.2)).getD [] := by
+    icEntries (parse .lastWins B) = ((B.map cell).reverse.find? (·.1 == none)).map (·.2) := by
   unfold icEntries parse mkDelayFile
   simp only
   rw [dictGet_start_lastWins]
